@@ -2,7 +2,7 @@
  * One run = one scenario; everything observable goes to the history file (text) and the packet file (binary).
  *
  *   svt_scn out=<prefix> w=<W> h=<H> n=<frames> [key=value ...]
- * keys: content=<0 gradient|1 noise|2 moving blocks|3 flat|4 extremes|5 screen-like> cseed=<int>
+ * keys: content=<0 gradient|1 noise|2 moving blocks|3 flat|4 extremes|5 screen-like|6 static column + noisy texture + fast squares> cseed=<int>
  *       bits=<8|10> stride_pad=<int> padfill=<0..255|256 random> scribble=<0|1> (overwrite+free caller buffer after send)
  *       pace=<0 drain at end|1 poll after every send|k>=2 poll every k sends|-1 random polling> pseed=<int>
  *       recon=<0|1> stat=<0|1> decode=<0|1> dec_threads=<int> dec16=<0|1> eos_mode=<0 separate EOS buffer|1 flag on last picture>
@@ -51,6 +51,14 @@ static int sample(int k, int x, int y, int plane) {
               break; }
     case 3: v = 128; break;
     case 4: v = ((x + y + k) & 1) ? 255 : 0; break;
+    case 6: { int sc = plane ? 2 : 1; int X = x * sc, Y = y * sc;
+              if (plane) { v = 128 + (plane == 1 ? 8 : -8); break; }
+              if (X < 64) { v = 60 + X + Y / 2; break; }
+              unsigned s = (unsigned)((cseed + 7) * 2654435761u) ^ (unsigned)(k * 7919 + 13) ^ (unsigned)(Y * 65537 + X * 31); s ^= s << 13; s ^= s >> 17; s ^= s << 5;
+              v = 110 + 20 * (((X / 16) + (Y / 16)) & 1) + (int)((s >> 8) % 25) - 12;
+              int band = Y / 32, yy = Y % 32, xx = ((X - 64) - 10 * k - 37 * band) % 96; if (xx < 0) xx += 96;
+              if (yy >= 10 && yy < 22 && xx < 12) v = ((xx / 4 + yy / 4) & 1) ? 235 : 20;
+              break; }
     default: { int sc = plane ? 2 : 1; int X = x * sc, Y = y * sc; v = ((X / 16) * 37 + (Y / 16) * 101 + cseed) & 255; if (((X % 16) == 3 || (Y % 16) == 5)) v = 16; if ((k & 3) == 3 && X < 32 && Y < 32) v = 200; break; }
     }
     if (bits > 8) v = (v << (bits - 8)) | (v >> (16 - bits));
